@@ -428,6 +428,14 @@ func Variants(p int, claim string) []Variant {
 				Variant{Name: "count3", Coarse: "wrong-shape", Apply: func(a *Claims, g *Gen) {
 					a.HasNonce, a.Nonces = true, [][]byte{g.Bytes(32), g.Bytes(48), g.Bytes(64)}
 				}},
+				Variant{Name: "count2-same", Coarse: "just-outside", Apply: func(a *Claims, g *Gen) {
+					n := g.Bytes(g.HashLen())
+					a.HasNonce, a.Nonces = true, [][]byte{n, append([]byte{}, n...)}
+				}},
+				Variant{Name: "count3-same", Coarse: "wrong-shape", Apply: func(a *Claims, g *Gen) {
+					n := g.Bytes(32)
+					a.HasNonce, a.Nonces = true, [][]byte{n, append([]byte{}, n...), append([]byte{}, n...)}
+				}},
 				Variant{Name: "count2-bad", Coarse: "wrong-shape", Apply: func(a *Claims, g *Gen) {
 					a.HasNonce, a.Nonces = true, [][]byte{g.Bytes(7), g.Bytes(32)}
 				}},
